@@ -272,3 +272,120 @@ Theorem str_is_isoformat : forall x,
   (forall sep, List.length (native_isoformat sep x) = List.length (native_isoformat 32 x)).
 Proof. exact (@str_is_isoformat). Qed.
 Print Assumptions str_is_isoformat.
+
+(* ---- the specification side itself: the NATIVE semantics used above (Spec/TdFloat.v td_norm / td_of_int_args, Spec/NativeDT.v ndt_add_td /
+   ndt_replace_ymd, Model/DropIn.v native_utcoffset / native_sub / cmp_key / native_ord / native_eq) EQUALS the machine translation of
+   CPython's pure-Python reference implementation _pydatetime.py (Gen/StdlibDT.v: regenerated on every run from the staged interpreter's
+   standard library; each function partially evaluated under the assumptions written next to it, see tools/vlib/gens/g14_stdlib_dt.py).
+   Bridge (Proofs/StdlibDTFacts.v): sdtm_of x = the datetime object whose slots are fields_of_wall (v_wall x), fold, and a tzinfo object that
+   answers utcoffset(dt) with off_local of its table (identity = tz_id); std_of_us N = the timedelta object (td_norm N);
+   off_ok x = every utcoffset() of x's tzinfo lies strictly between -24h and +24h (what _check_utc_offset tests). ---- *)
+From PV Require Import Model.StdlibDTObj Gen.StdlibCal Gen.StdlibDT Proofs.StdlibDTFacts.
+
+(* timedelta(days, seconds, microseconds, milliseconds, minutes, hours, weeks) on ANY integers: the normal form td_norm of the exact
+   microsecond count, OverflowError iff |days| > 999999999; none of the function's assertions can fail *)
+Theorem spec_is_stdlib_timedelta_new : forall d s us ms mi h w,
+  sl_timedelta_new d s us ms mi h w =
+  match td_of_int_args d s us ms mi h w with Ok N => Ok (std_of_us N) | Raise e => Raise e end.
+Proof. exact sl_timedelta_new_spec. Qed.
+Print Assumptions spec_is_stdlib_timedelta_new.
+
+Theorem spec_is_stdlib_timedelta_add : forall a b,
+  sl_timedelta_add (std_of_us a) (std_of_us b) = if td_in_range (a + b) then Ok (std_of_us (a + b)) else Raise E_OverflowError.
+Proof. exact td_add_us. Qed.
+Print Assumptions spec_is_stdlib_timedelta_add.
+
+Theorem spec_is_stdlib_timedelta_sub : forall a b,
+  sl_timedelta_sub (std_of_us a) (std_of_us b) = if td_in_range (a - b) then Ok (std_of_us (a - b)) else Raise E_OverflowError.
+Proof. exact td_sub_us. Qed.
+Print Assumptions spec_is_stdlib_timedelta_sub.
+
+Theorem spec_is_stdlib_timedelta_neg : forall a,
+  sl_timedelta_neg (std_of_us a) = if td_in_range (- a) then Ok (std_of_us (- a)) else Raise E_OverflowError.
+Proof. exact td_neg_us. Qed.
+Print Assumptions spec_is_stdlib_timedelta_neg.
+
+(* datetime.utcoffset(): None for a naive value, else the tzinfo's answer (after _check_utc_offset) *)
+Theorem spec_is_stdlib_datetime_utcoffset : forall x, off_ok x ->
+  sl_datetime_utcoffset (sdtm_of x) = Ok (otd (native_utcoffset x)).
+Proof. exact sl_utcoffset_spec. Qed.
+Print Assumptions spec_is_stdlib_datetime_utcoffset.
+
+(* datetime - datetime: the same tzinfo OBJECT => the wall difference (fold and offsets ignored); otherwise equal utcoffsets => wall difference,
+   one naive => TypeError, else the difference of the instants *)
+Theorem spec_is_stdlib_datetime_sub : forall x y,
+  off_ok x -> off_ok y -> wall_in_range (v_wall x) = true -> wall_in_range (v_wall y) = true ->
+  sl_datetime_sub (sdtm_of x) (sdtm_of y) = match native_sub x y with Ok N => Ok (std_of_us N) | Raise e => Raise e end.
+Proof. exact sl_datetime_sub_spec. Qed.
+Print Assumptions spec_is_stdlib_datetime_sub.
+
+(* datetime._cmp(other) (the ordering operators): same tzinfo object => order of the walls, both aware => order of the instants,
+   naive against aware => TypeError *)
+Theorem spec_is_stdlib_datetime_cmp : forall x y,
+  off_ok x -> off_ok y -> wall_in_range (v_wall x) = true -> wall_in_range (v_wall y) = true ->
+  sl_datetime_cmp (sdtm_of x) (sdtm_of y) false =
+  match cmp_key x y with None => Raise E_TypeError | Some (a, b) => Ok (cmp3 a b) end.
+Proof. exact sl_datetime_cmp_ord. Qed.
+Print Assumptions spec_is_stdlib_datetime_cmp.
+
+(* datetime.__eq__ = (_cmp(other, allow_mixed=True) == 0): never raises, and is native_eq incl. the PEP 495 inter-zone exception
+   (a value whose utcoffset depends on fold is unequal to everything carrying another tzinfo object) *)
+Theorem spec_is_stdlib_datetime_eq : forall x y,
+  off_ok x -> off_ok y -> wall_in_range (v_wall x) = true -> wall_in_range (v_wall y) = true ->
+  exists c, sl_datetime_cmp (sdtm_of x) (sdtm_of y) true = Ok c /\ (c =? 0) = native_eq x y.
+Proof. exact sl_datetime_cmp_eq. Qed.
+Print Assumptions spec_is_stdlib_datetime_eq.
+
+(* _cmp on the field tuples is the order of the wall values *)
+Theorem spec_is_stdlib_field_order : forall a b, sl_cmp7 (fields_of_wall a) (fields_of_wall b) = cmp3 a b.
+Proof. exact cmp7_fields. Qed.
+Print Assumptions spec_is_stdlib_field_order.
+
+(* datetime + timedelta: the wall moves by the timedelta, fold is RESET to 0, tzinfo kept; OverflowError iff the result leaves years 1..9999 *)
+Theorem spec_is_stdlib_datetime_add : forall x N, wall_in_range (v_wall x) = true -> td_in_range N = true ->
+  sl_datetime_add (sdtm_of x) (std_of_us N) =
+  if wall_in_range (v_wall x + N) then Ok (sdtm_of (mkdtv (v_wall x + N) false (v_tz x))) else Raise E_OverflowError.
+Proof. exact sl_datetime_add_spec. Qed.
+Print Assumptions spec_is_stdlib_datetime_add.
+
+(* dt + timedelta(days=, hours=, minutes=, seconds=, microseconds=) = Spec/NativeDT.v ndt_add_td on a datetime, all integer arguments *)
+Theorem spec_is_stdlib_datetime_add_ndt : forall x days hours minutes seconds us, wall_in_range (v_wall x) = true ->
+  match sl_timedelta_new days seconds us 0 minutes hours 0 with Ok td => sl_datetime_add (sdtm_of x) td | Raise e => Raise e end
+  = match ndt_add_td (mkndt (v_wall x) true) days hours minutes seconds us with
+    | Ok r => Ok (sdtm_of (mkdtv (n_wall r) false (v_tz x))) | Raise e => Raise e end.
+Proof. exact sl_datetime_add_is_ndt_add_td. Qed.
+Print Assumptions spec_is_stdlib_datetime_add_ndt.
+
+(* date + timedelta = ndt_add_td on a date (only the day part of the timedelta counts) *)
+Theorem spec_is_stdlib_date_add_ndt : forall y m d days hours minutes seconds us, valid_dateb y m d = true ->
+  match sl_timedelta_new days seconds us 0 minutes hours 0 with Ok td => sl_date_add (mkdate y m d) td | Raise e => Raise e end
+  = match ndt_add_td (mkndt ((ymd2ord y m d - 1) * us_per_day) false) days hours minutes seconds us with
+    | Ok r => let '(y', m', d') := ord2ymd (n_wall r / us_per_day + 1) in Ok (mkdate y' m' d') | Raise e => Raise e end.
+Proof. exact sl_date_add_is_ndt_add_td. Qed.
+Print Assumptions spec_is_stdlib_date_add_ndt.
+
+Theorem spec_is_stdlib_date_sub : forall y1 m1 d1 y2 m2 d2, valid_dateb y1 m1 d1 = true -> valid_dateb y2 m2 d2 = true ->
+  sl_date_sub (mkdate y1 m1 d1) (mkdate y2 m2 d2) =
+  let N := (ymd2ord y1 m1 d1 - ymd2ord y2 m2 d2) * us_per_day in
+  if td_in_range N then Ok (std_of_us N) else Raise E_OverflowError.
+Proof. exact sl_date_sub_spec. Qed.
+Print Assumptions spec_is_stdlib_date_sub.
+
+(* datetime.replace(year=, month=, day=) = ndt_replace_ymd: ValueError iff the date is impossible or the year is outside 1..9999;
+   time of day, fold and tzinfo are kept *)
+Theorem spec_is_stdlib_datetime_replace : forall x y m d,
+  sl_datetime_replace_ymd (sdtm_of x) (Some y) (Some m) (Some d) =
+  match ndt_replace_ymd (mkndt (v_wall x) true) y m d with
+  | Ok r => Ok (sdtm_of (mkdtv (n_wall r) (v_fold x) (v_tz x))) | Raise e => Raise e end.
+Proof. exact sl_datetime_replace_spec. Qed.
+Print Assumptions spec_is_stdlib_datetime_replace.
+
+Theorem spec_is_stdlib_dt_examples :
+  sl_timedelta_new 1 (-1) 0 0 0 25 0 = Ok (mkstd 2 3599 0) /\ sl_timedelta_new 1000000000 0 0 0 0 0 0 = Raise E_OverflowError /\
+  sl_datetime_add (mksdtm 9999 12 31 23 0 0 0 1 None) (mkstd 0 3600 0) = Raise E_OverflowError /\
+  sl_datetime_add (mksdtm 2024 2 28 23 0 0 0 1 None) (mkstd 0 3600 0) = Ok (mksdtm 2024 2 29 0 0 0 0 0 None) /\
+  sl_datetime_cmp (mksdtm 2024 1 1 0 0 0 0 0 None) (mksdtm 2024 1 1 0 0 0 0 0 (Some (mkstz 1 (fun _ _ => Some (mkstd 0 0 0))))) false
+    = Raise E_TypeError /\
+  sl_datetime_replace_ymd (mksdtm 2024 2 29 1 2 3 4 1 None) (Some 2023) None None = Raise E_ValueError.
+Proof. exact sl_dt_examples. Qed.
+Print Assumptions spec_is_stdlib_dt_examples.
